@@ -38,6 +38,13 @@ class C03(PropBase):
                 if len(fields) > 1:
                     pstr = '/'.join(val for _, val in fields[:-1])
                     more.append(Case('div', [['f', fields[:-1]], fields[-1][1]], 'div', meta))
+                if rng.random() < 0.25 and not c.args[0][1].count(':') and not any(ch in string for ch in '*>,?\n'):
+                    # the same Sid made from its own path (fields as the path resolver gives them)
+                    for cfg in [pc[0] for pc in ctx['rawd']['path_configs']][:1]:
+                        more.append(Case('via_path', [src, cfg, 'obs', ''], 'via_path', dict(meta, what='obs')))
+                        k = rng.choice([a for a, _ in fields])
+                        more.append(Case('via_path', [src, cfg, 'get_as', k], 'via_path', dict(meta, what='get_as', key=k)))
+                        more.append(Case('via_path', [src, cfg, 'parent', ''], 'via_path', dict(meta, what='parent')))
                 if rng.random() < 0.12 and len(fields) > 1:
                     # the same navigations after a caller played with the dictionary returned by .fields (in one process)
                     k = rng.choice([a for a, _ in fields])
@@ -67,6 +74,24 @@ class C03(PropBase):
             return None
         orig = case.meta.get('orig')
         string, ty, fields = orig
+        if case.op == 'via_path':
+            if impl[0] != 'ok':
+                return 'Sid(path=sid.path()) then %s raised %r' % (case.meta['what'], impl)
+            got = impl[1]
+            if got == []:
+                return None          # no path for this type
+            if not case.meta.get('natural'):
+                return None
+            w = case.meta['what']
+            if w == 'obs' and got != orig:
+                return 'the Sid made from the path of %r is %r (fields in another order, or another Sid)' % (orig, got)
+            if w == 'get_as':
+                i = [a for a, _ in fields].index(case.meta['key']) + 1
+                if got[2] != fields[:i] or got[0] != '/'.join(string.split('/')[:i]):
+                    return 'on the Sid made from the path of %r, get_as(%s) is %r' % (string, case.meta['key'], got)
+            if w == 'parent' and len(fields) > 1 and got[2] != fields[:-1]:
+                return 'on the Sid made from the path of %r, parent is %r' % (string, got)
+            return None
         if case.op == 'seq':
             k = case.meta['key']
             i = [a for a, _ in fields].index(k) + 1
